@@ -239,6 +239,10 @@ def _main(argv=None):
             elif gen_info["rc"] != 0 or gen_info.get("tables_rc"):
                 broken.append(("extraction", {"error": gen_info.get("tables_err", "extractor crashed")}))
         ok_build, build_info = lake_build(f"ToastyVerif.Props.{pid}")
+        # the driver must be compiled against the Gen definitions of *this* run
+        ok_drv, drv_info = lake_build("ToastyVerif.Driver.Ops")
+        if not ok_drv and ok_build:
+            broken.append(("driver-build", {"errors": drv_info["errors"][:10]}))
         if not ok_build:
             broken.append(("proof", {"errors": build_info["errors"], "tail": build_info["tail"][-1500:]}))
             audit_info = {"theorems": theorems_in(os.path.join(LEAN, "ToastyVerif", "Props", pid + ".lean")), "axioms": {}}
